@@ -295,15 +295,19 @@ def show(t, depth=0):
 
 
 def first_diff(a, b, depth=0):
-    """smallest differing pair of subterms (for messages)"""
+    """smallest differing pair of subterms (for messages); allocation kinds are skipped when something else differs too"""
     if a == b:
         return None
-    if isinstance(a, tuple) and isinstance(b, tuple) and len(a) == len(b) and a and b and a[0] == b[0] and depth < 40:
+    if isinstance(a, tuple) and isinstance(b, tuple) and len(a) == len(b) and a and b and depth < 60 and \
+            (a[0] == b[0] or (isinstance(a[0], tuple) and isinstance(b[0], tuple))):
         diffs = [(x, y) for x, y in zip(a, b) if x != y]
-        if len(diffs) == 1 and isinstance(diffs[0][0], tuple) and isinstance(diffs[0][1], tuple):
-            r = first_diff(diffs[0][0], diffs[0][1], depth + 1)
+        real = [(x, y) for x, y in diffs if not (x in (ZEROS, EMPTY) and y in (ZEROS, EMPTY))]
+        if len(real) >= 1 and isinstance(real[0][0], tuple) and isinstance(real[0][1], tuple):
+            r = first_diff(real[0][0], real[0][1], depth + 1)
             if r is not None:
                 return r
+        if len(real) >= 1:
+            return real[0]
     return a, b
 
 
